@@ -17,7 +17,8 @@ LEVEL = "proof"
 def build_pool(rng, name, dis, specs, nspec):
     e = dis.endian()
     ml = dis.maxlen
-    pool = {"valid": [], "random": [], "truncated": [], "prefix": [], "raiser": [], "prefix+raiser": [], "prefix+truncated": [], "prefix+valid": [], "suffix": []}
+    pool = {"valid": [], "random": [], "truncated": [], "prefix": [], "raiser": [], "prefix+raiser": [], "prefix+truncated": [], "prefix+valid": [], "suffix": [],
+            "prefix-run": []}
     pfx = [s for s in specs if s.pfx is True]
     sample = specs if nspec >= len(specs) else rng.sample(specs, nspec)
     for s in sample:
@@ -54,7 +55,39 @@ def build_pool(rng, name, dis, specs, nspec):
                     pool["prefix+valid"].append(c04.spec_bytes(rng, s, e, ml) + v)
             for n in sorted({0, 1, 2, max(0, len(v) - ml - 1), rng.randrange(0, max(1, min(len(v), ml)))}):
                 pool["prefix+truncated"].append(pb + v[:n])
+    if pfx and PREFIX_RUNS:
+        # long runs of prefix bytes, around and beyond the longest instruction (maxlen-2 .. maxlen+1, 2*maxlen-1 .. 2*maxlen+1,
+        # 3*maxlen; capped at RUN_CAP bytes, far below the interpreter's recursion limit): every prefix repeated, two prefixes
+        # alternating, random mixtures; alone, followed by a valid instruction, by a truncated one and by arbitrary bytes
+        lens = sorted({min(RUN_CAP, n) for n in (ml - 2, ml - 1, ml, ml + 1, 2 * ml - 1, 2 * ml, 2 * ml + 1, 3 * ml) if n > 0})
+
+        def run_of(n, parts):
+            out, j = b"", 0
+            while len(out) < n:
+                out += parts[j % len(parts)] if parts else c04.spec_bytes(rng, rng.choice(pfx), e, ml)
+                j += 1
+            return out
+
+        def add(r):
+            pool["prefix-run"].append(r)
+            v = rng.choice(pool["valid"])
+            pool["prefix-run"].append(r + v)
+            c = rng.random()
+            if c < 0.3 and len(v) > 1:
+                pool["prefix-run"].append(r + v[:rng.randrange(1, len(v))])
+            elif c < 0.5:
+                pool["prefix-run"].append(r + bytes(rng.getrandbits(8) for _ in range(rng.randrange(1, ml + 1))))
+        for n in lens:
+            for s in pfx:
+                add(run_of(n, [c04.spec_bytes(rng, s, e, ml)]))
+            for _ in range(max(2, len(pfx) // 2)):
+                add(run_of(n, [c04.spec_bytes(rng, rng.choice(pfx), e, ml), c04.spec_bytes(rng, rng.choice(pfx), e, ml)]))
+                add(run_of(n, None))
     return pool, pfx
+
+
+PREFIX_RUNS = True      # inputs that begin with maxlen or more prefix bytes
+RUN_CAP = 64
 
 
 XD = [False]
@@ -135,10 +168,14 @@ def worker(args):
             for o in (F2[b], F3[b]):
                 if o != F[b] and len(res["leak2"]) < 3:
                     res["leak2"].append({"isa": name, "mode": k, "bytes": b.hex(), "first": F[b], "second": o})
-        for b in extra:
+        inpool = set(allb)
+        for b in dict.fromkeys(extra):
+            if b in inpool:
+                continue                 # an extra input that is also a pool input keeps its reference outcome
             if F[b] is not None and "raised" in F[b]:
                 allb.append(b)
-            elif b not in pool["valid"]:
+                inpool.add(b)
+            else:
                 del F[b]
         raisers = [b for b in allb if F[b] is not None and "raised" in F[b]]
         res["raisers"] = len(raisers)
@@ -152,7 +189,8 @@ def worker(args):
         more += [b for b in pool["prefix+truncated"] if b not in F]
         F.update(fresh_many(dis, more))
         kinds = [kd for kd, v in pool.items() if v]
-        weights = {"valid": 5, "random": 2, "truncated": 2, "prefix": 3, "raiser": 3, "prefix+raiser": 4, "prefix+truncated": 3, "prefix+valid": 4, "suffix": 8}
+        weights = {"valid": 5, "random": 2, "truncated": 2, "prefix": 3, "raiser": 3, "prefix+raiser": 4, "prefix+truncated": 3, "prefix+valid": 4, "suffix": 8,
+                   "prefix-run": 4}
         for h in range(nhist):
             isa.reset_pending(dis)
             hist = []
@@ -168,7 +206,7 @@ def worker(args):
                 o = c04.outcome(lambda: call(dis, b))
                 res["calls"] += 1
                 res["kinds"][kd] = res["kinds"].get(kd, 0) + 1
-                if kd in ("prefix", "raiser", "prefix+raiser", "prefix+truncated", "truncated") or o is None:
+                if kd in ("prefix", "raiser", "prefix+raiser", "prefix+truncated", "truncated", "prefix-run") or o is None:
                     seenfail = True
                 if o != F[b]:
                     if len(res["viol"]) < 3:
@@ -209,7 +247,8 @@ def worker(args):
 def check(run):
     quick = run.tier == "quick"
     run.cov["rule"] = ("call history on one disassembler object per cpu module/mode: valid (spec-derived), random, truncated, prefix-only, "
-                       "prefix+truncated, raising (inputs whose setup code raises) and prefix+raising inputs in random order; each outcome "
+                       "prefix+truncated, raising (inputs whose setup code raises), prefix+raising inputs and runs of maxlen-2 .. 3*maxlen prefix bytes "
+                       "(one prefix repeated, alternating, mixed; alone or followed by an instruction) in random order; each outcome "
                        "compared with the outcome from the cleared state; distinct by history; non-trivial when the history contains a "
                        "prefix, truncated, raising or non-decoding call")
     run.static_part()
